@@ -779,4 +779,113 @@ theorem flatMap_plain (p : Nat → Bool) (q : Nat) (s : List Nat)
   | cons c cs ih =>
     simp [h c (List.mem_cons_self ..), ih (fun x hx => h x (List.mem_cons_of_mem _ hx))]
 
+/-! ### the layout loop under a different reserved length (`named_repr_layout`) -/
+
+/-- a layout that announces a length has accounted for the reserved part within `isize` -/
+theorem layoutGo_bound (cl : Nat → Nat) (pref : Quote) (r : Nat) :
+    ∀ (s : List Nat) (out sc dc n : Nat), r ≤ out →
+      (layoutGo cl pref r s out sc dc).len = some n → n + r ≤ isizeMax := by
+  intro s
+  induction s with
+  | nil =>
+    intro out sc dc n hr h
+    simp only [layoutGo] at h
+    split at h
+    · simp at h
+    · rename_i o ho
+      have h1 := lengthAdd_some ho
+      unfold lengthAdd at ho
+      split at ho
+      · simp at h; omega
+      · cases ho
+  | cons c cs ih =>
+    intro out sc dc n hr h
+    simp only [layoutGo] at h
+    split at h
+    · simp at h
+    · rename_i o ho
+      have h1 := lengthAdd_some ho
+      exact ih _ _ _ _ (by omega) h
+
+/-- shrinking the reserved part (and the start value with it) keeps an announced length -/
+theorem layoutGo_shift_down (cl : Nat → Nat) (pref : Quote) (r d : Nat) :
+    ∀ (s : List Nat) (out sc dc n : Nat), r ≤ out →
+      (layoutGo cl pref (r + d) s (out + d) sc dc).len = some n →
+      layoutGo cl pref r s out sc dc = layoutGo cl pref (r + d) s (out + d) sc dc := by
+  intro s
+  induction s with
+  | nil =>
+    intro out sc dc n hr h
+    simp only [layoutGo] at h ⊢
+    split at h
+    · simp at h
+    · rename_i o ho
+      have h1 := lengthAdd_some ho
+      have h2 : lengthAdd out (chooseQuote sc dc pref).2 = some (out + (chooseQuote sc dc pref).2) := by
+        unfold lengthAdd at ho ⊢
+        split at ho
+        · rw [if_pos (by omega)]
+        · cases ho
+      rw [h2]
+      simp only [Layout.mk.injEq, Option.some.injEq, true_and]
+      omega
+  | cons c cs ih =>
+    intro out sc dc n hr h
+    simp only [layoutGo] at h ⊢
+    split at h
+    · simp at h
+    · rename_i o ho
+      have h1 := lengthAdd_some ho
+      generalize hinc : (if c = 39 ∨ c = 34 then 1 else cl c) = inc at *
+      have h2 : lengthAdd out inc = some (out + inc) := by
+        unfold lengthAdd at ho ⊢
+        split at ho
+        · rw [if_pos (by omega)]
+        · cases ho
+      rw [h2]
+      simp only
+      have e : o = out + inc + d := by omega
+      subst e
+      exact ih _ _ _ _ (by omega) h
+
+/-- growing the reserved part keeps an announced length as long as the whole text still fits -/
+theorem layoutGo_shift_up (cl : Nat → Nat) (pref : Quote) (r d : Nat) :
+    ∀ (s : List Nat) (out sc dc n : Nat), r ≤ out →
+      (layoutGo cl pref r s out sc dc).len = some n → n + r + d ≤ isizeMax →
+      layoutGo cl pref (r + d) s (out + d) sc dc = layoutGo cl pref r s out sc dc := by
+  intro s
+  induction s with
+  | nil =>
+    intro out sc dc n hr h hfit
+    simp only [layoutGo] at h ⊢
+    split at h
+    · simp at h
+    · rename_i o ho
+      have h1 := lengthAdd_some ho
+      simp at h
+      have h2 : lengthAdd (out + d) (chooseQuote sc dc pref).2 = some (out + d + (chooseQuote sc dc pref).2) := by
+        unfold lengthAdd
+        rw [if_pos (by omega)]
+      rw [h2]
+      simp only [Layout.mk.injEq, Option.some.injEq, true_and]
+      omega
+  | cons c cs ih =>
+    intro out sc dc n hr h hfit
+    have hspec := (layoutGo_spec cl pref r (c :: cs) out sc dc n h).2
+    simp only [layoutGo] at h ⊢
+    split at h
+    · simp at h
+    · rename_i o ho
+      have h1 := lengthAdd_some ho
+      simp only [sumLen] at hspec
+      generalize hinc : (if c = 39 ∨ c = 34 then 1 else cl c) = inc at *
+      have h2 : lengthAdd (out + d) inc = some (out + d + inc) := by
+        unfold lengthAdd
+        rw [if_pos (by omega)]
+      rw [h2]
+      simp only
+      have e : out + d + inc = o + d := by omega
+      rw [e]
+      exact ih _ _ _ _ (by omega) h hfit
+
 end PV.C16
